@@ -139,7 +139,7 @@ def model_term(e, A):
             sc = 1.0 / r
         al = "[" + "; ".join(f"({'true' if i in lens else 'false'}, {lens.get(i, shp[i])})" for i in range(len(shp))) + "]"
         return f"(dft_model {nl(shp)} {al} {L.cq_entry(sc)})"
-    if cls == "ProjectedGradient" and c.get("coord") is None:
+    if cls == "ProjectedGradient" and c.get("coord") is None and not c.get("cdiff"):
         axes = c.get("axes", tuple(range(len(c["shape"]))))
         return f"(({nl([L.size_of(A.output_shape)])}), diffstack_model {nl(c['shape'])} {nl(axes)})"
     return None
@@ -200,6 +200,13 @@ def numpy_reference(e, A):
                 y = y / N
             return y
         return from_fn(ref, True)
+    if cls == "ProjectedGradient" and c.get("coord") is None and c.get("cdiff"):
+        axes = c.get("axes") or tuple(range(len(shp)))
+
+        def ref(x):
+            # documented: second-order central differences of numpy.gradient along each requested axis, stacked
+            return np.concatenate([np.gradient(x, axis=a).ravel() for a in axes]) if len(shp) > 1 or True else None
+        return from_fn(ref, L.is_complex(A.input_dtype))
     if cls == "ProjectedGradient" and c.get("coord") is not None:
         coord = np.array(eval(c["coord"]))
 
